@@ -57,6 +57,9 @@ def shapes():
         ("deferred", I, {"r": "rerr"}),
         ("nested", I, {"r": "rerr"}),
         ("deferred", {"t": "nn", "of": {"t": "int", "scalar": "trim"}}, {"r": "ok", "v": "tonull"}),
+        ("deferred", {"t": "int", "scalar": "trim"}, {"r": "ok", "v": "cerr"}),
+        ("sync", dict(sub, abstract=True), {"r": "ok", "v": "cerr"}),
+        ("nested", {"t": "list", "of": I}, {"r": "ok", "v": {"lazy": [1], "fail": True}}),
         ("deferred", {"t": "nn", "of": I}, {"r": "rerr"}),
         ("sync", {"t": "nn", "of": I}, {"r": "rerr"}),
         ("deferred", {"t": "nn", "of": I}, {"r": "ok", "v": None}),
